@@ -623,6 +623,27 @@ func (t *Table) Delete(input *types.DeleteItemInput) (map[string]*types.Item, er
 	// running it multiple times on the same item or attribute does not result in an error response,
 	// therefore we do not need to check if the item exists.
 	item, ok := t.Data[key]
+
+	// support conditional writes, the condition is decided on the item stored under the key of the request
+	if input.ConditionExpression != nil {
+		aliases := map[string]string{}
+		for name, value := range input.ExpressionAttributeNames {
+			aliases[name] = types.StringValue(value)
+		}
+
+		_, matched := t.matchKey(QueryInput{
+			Index:                     PrimaryIndexName,
+			ExpressionAttributeValues: input.ExpressionAttributeValues,
+			Aliases:                   aliases,
+			Limit:                     1,
+			ConditionExpression:       input.ConditionExpression,
+		}, t.getItem(key))
+
+		if !matched {
+			return nil, types.NewError("ConditionalCheckFailedException", ErrConditionalRequestFailed.Error(), nil)
+		}
+	}
+
 	if !ok {
 		return item, nil
 	}
